@@ -158,6 +158,7 @@ def run(keep=False) -> dict:
             res["ok"] = False
             res["disagreements"].append({"function": t.function, "input": None, "python": f"must be refused ({want})", "lean": err or "was translated"})
     lock_selftest(res)
+    text_selftest(res)
     targets = all_targets["Selftest"]
     tmp = Path(tempfile.mkdtemp(prefix="py2lean_selftest_"))
     try:
@@ -506,6 +507,204 @@ def lock_selftest(res: dict) -> None:
                 fail(name + ".Atomic", want, str(verdicts.get(name)))
         res["lock_records"] = len(order)
         res["functions"] += 0
+    finally:
+        shutil.rmtree(tmp, ignore_errors=True)
+
+
+# ---- str values, format specifications, cursor / StringBuilder state (builder T4) -------------------------------------------
+def text_selftest(res: dict) -> None:
+    """The text part of the translated subset: (1) every function of corpus/text_unsupported.py must be refused with the expected
+    reason; (2) corpus/text.py is translated (group "SelftestText"), evaluated in Lean on grids and compared with CPython running
+    the same functions — a str parameter ranges over corpus.text.TEXTS, a str result is compared as its list of code points, a
+    Lean reply "outside the modelled domain" (`!dom`: `int(c)` of a non-ASCII character, `int(a * math.pow(10.0, k))` outside
+    the range where the float computation is exact, a format width above INT_MAX) is counted and skipped; (3) the table behind
+    `c.isdigit()` (PyodaGen/TextSupport.lean `pyDigitRanges`) is compared with `chr(cp).isdigit()` for every code point."""
+    all_targets = py2lean.load_targets(ROOT / "targets.py")
+    refuse = all_targets["SelftestTextRefuse"]
+    rgen = py2lean.Gen("SelftestTextRefuse", refuse, py2lean.Source(ROOT))
+    rgen.translate_all()
+    for t in rgen.targets:
+        want = refuse["expect"][t.function]
+        err = getattr(t, "error", "")
+        ok = t.state == "failed" and err.startswith("UNSUPPORTED: ") and want in err
+        res["refused"]["text." + t.function] = {"ok": ok, "error": err or "(translated!)", "expected_fragment": want}
+        if not ok:
+            res["ok"] = False
+            res["disagreements"].append({"function": "text." + t.function, "input": None, "python": f"must be refused ({want})", "lean": err or "was translated"})
+    targets = all_targets["SelftestText"]
+    sys.path.insert(0, str(ROOT))
+    mod = importlib.import_module("corpus.text")
+    TEXTS = mod.TEXTS
+    tmp = Path(tempfile.mkdtemp(prefix="py2lean_texttest_"))
+    try:
+        out_dir = tmp / "PyodaGen"
+        g = py2lean.generate("SelftestText", targets, ROOT, out_dir)
+        if g["errors"]:
+            res["ok"] = False
+            res["errors"] += [{"function": "text." + str(e.get("function")), "error": e.get("error")} for e in g["errors"]]
+            return
+        gen = py2lean.Gen("SelftestText", targets, py2lean.Source(ROOT))
+        gen.translate_all()
+        rng = random.Random(20261003)
+
+        def chars(sv):
+            return "([" + ", ".join(f"Char.ofNat {ord(c)}" for c in sv) + "] : List Char)"
+        texts_alts = " ".join(f"| {i} => {chars(sv)}" for i, sv in enumerate(TEXTS))
+        ev = ["import PyodaGen.SelftestText", "open Pyoda Pyoda.Gen Pyoda.Gen.Text Pyoda.Gen.SelftestText", "",
+              f"def textOf (i : Int) : List Char := match i with {texts_alts} | _ => []",
+              "def showText (l : List Char) : String := toString (l.map Char.toNat)",
+              f"def mkSB (ti _u : Int) : SB := ⟨textOf (Int.fmod ti {len(TEXTS)})⟩",
+              "def showSB (b : SB) : String := showText b.s",
+              f"def mkCur (ti idx : Int) : VC := let v := textOf (Int.fmod ti {len(TEXTS)}); let t := idx - 3",
+              "  if 0 ≤ t ∧ t < (v.length : Int) then ⟨v, v.length, v.getD t.toNat (Char.ofNat 0), t⟩",
+              "  else if t ≥ (v.length : Int) then ⟨v, v.length, Char.ofNat 0, v.length⟩ else ⟨v, v.length, Char.ofNat 0, -1⟩",
+              "def showCur (c : VC) : String := toString c.index ++ \" \" ++ toString c.current.toNat",
+              "def runRows (name file : String) (f : List Int → String) : IO Unit := do",
+              "  let s ← IO.FS.readFile file",
+              "  IO.println (\"## \" ++ name)",
+              "  for ln in s.splitOn \"\\n\" do",
+              "    if ln ≠ \"\" then",
+              "      let xs := (ln.splitOn \" \").filterMap String.toInt?",
+              "      IO.println (f xs)", ""]
+
+        def show(ty, e):
+            if isinstance(ty, tuple):
+                names = [f"p{i}" for i in range(len(ty))]
+                return "(match " + e + " with | (" + ", ".join(names) + ") => \"(\" ++ " + " ++ \", \" ++ ".join(show(t_, n_) for t_, n_ in zip(ty, names)) + " ++ \")\")"
+            if ty == "Text":
+                return f"showText ({e})"
+            if ty == "Chr":
+                return f"(\"[\" ++ toString ({e} : Char).toNat ++ \"]\")"
+            return lean_show(ty, e)
+
+        def pshow(v):
+            if isinstance(v, str):
+                return str([ord(c) for c in v])
+            if isinstance(v, tuple):
+                return "(" + ", ".join(pshow(x) for x in v) + ")"
+            return py_show(v)
+        plan = []
+        for idx, t in enumerate(gen.targets):
+            allp = ([("st'", "Seed")] if t.mstate else []) + list(t.lean_params())
+            cg = t.d.get("selftest_grid") or {}
+            pools = []
+            for n, ty in allp:
+                if ty == "Seed":
+                    pools.append([(a, b) for a in range(len(TEXTS)) for b in (0, 2, 3, 4, 5, 7, 9, 14, 30)])
+                elif ty == "Text":
+                    pools.append([(i,) for i in range(len(TEXTS))])
+                elif n in cg:
+                    pools.append([(a,) for a in cg[n]])
+                else:
+                    pools.append([(a,) for a in INTS + [2 ** 31 - 1, -(2 ** 31), 10 ** 27, -(10 ** 27)]])
+            total = 1
+            for p_ in pools:
+                total *= len(p_)
+            combos = list(itertools.product(*pools)) if total <= 4000 else [tuple(rng.choice(p_) for p_ in pools) for _ in range(4000)]
+            plan.append((t, allp, combos))
+            (tmp / f"in_{idx}.txt").write_text("\n".join(" ".join(str(int(x)) for part in c for x in part) or "0" for c in combos) + "\n")
+            names, args, k = [], [], 0
+            for n, ty in allp:
+                if ty == "Seed":
+                    names += [f"a{k}", f"a{k+1}"]
+                    args.append(f"({t.d['selftest_state']['lean_mk']} a{k} a{k+1})")
+                    k += 2
+                elif ty == "Text":
+                    names.append(f"a{k}")
+                    args.append(f"(textOf a{k})")
+                    k += 1
+                else:
+                    names.append(f"a{k}")
+                    args.append(f"a{k}")
+                    k += 1
+            call = " ".join([t.lean_name] + args)
+            if t.mstate and t.mstate.get("mode", "rw") == "rw":
+                inner = show(t.ret, "v.1") + ' ++ " | " ++ ' + t.d["selftest_state"]["lean_show"] + " v.2"
+                shown = f"Pyoda.showR (fun v => {inner}) ({call})" if t.raises else f"(let v := {call}; {inner})"
+            else:
+                shown = f"Pyoda.showR (fun v => {show(t.ret, 'v')}) ({call})" if t.raises else show(t.ret, f"({call})")
+            pat = "[" + ", ".join(names) + "]"
+            ev.append(f"#eval runRows \"{t.lean_name}\" \"{tmp}/in_{idx}.txt\" fun r => match r with | {pat} => {shown} | _ => \"?arity\"")
+        ev.append("#eval IO.println (\"## isdigit\\n\" ++ toString ((List.range 1114112).filter (fun n => pyChrIsDigit (Char.ofNat n))))")
+        (tmp / "Eval.lean").write_text("\n".join(ev) + "\n")
+        lp = subprocess.run(["lake", "env", "printenv", "LEAN_PATH"], cwd=LEAN, capture_output=True, text=True, timeout=600)
+        if lp.returncode != 0:
+            raise RuntimeError("lake env failed: " + lp.stderr[-300:])
+        b = subprocess.run(["lake", "build", "PyodaGen.TextSupport", "PyodaGen.GlueC07N"], cwd=LEAN, capture_output=True, text=True, timeout=3600)
+        if b.returncode != 0:
+            raise RuntimeError("lake build PyodaGen.TextSupport failed: " + (b.stdout + b.stderr)[-400:])
+        built = LEAN / ".lake" / "build" / "lib" / "lean" / "PyodaGen"
+        for f in built.iterdir():
+            if f.stem.split(".")[0] != "SelftestText" and f.suffix in (".olean", ".ilean"):
+                os.symlink(f, out_dir / f.name)
+        env = dict(os.environ)
+        env["LEAN_PATH"] = lp.stdout.strip()
+        pin = ["taskset", "-c", str(os.getpid() % (os.cpu_count() or 1))] if Path("/usr/bin/taskset").exists() else []
+        c = subprocess.run(pin + ["lean", "--root=" + str(tmp), "-o", str(out_dir / "SelftestText.olean"), str(out_dir / "SelftestText.lean")],
+                           cwd=tmp, env=env, capture_output=True, text=True, timeout=1800)
+        if c.returncode != 0:
+            res["ok"] = False
+            res["errors"].append({"function": "text.*", "error": "generated Lean does not compile: " + (c.stdout + c.stderr)[-1500:]})
+            return
+        env["LEAN_PATH"] = str(tmp) + ":" + lp.stdout.strip()
+        c = subprocess.run(pin + ["lean", "--root=" + str(tmp), str(tmp / "Eval.lean")], cwd=tmp, env=env, capture_output=True, text=True, timeout=1800)
+        if c.returncode != 0:
+            res["ok"] = False
+            res["errors"].append({"function": "text.*", "error": "evaluation file failed: " + (c.stdout + c.stderr)[-1500:]})
+            return
+        lean_out, cur = {}, None
+        for ln in c.stdout.split("\n"):
+            if ln.startswith("## "):
+                cur = ln[3:].strip()
+                lean_out[cur] = []
+            elif cur is not None and ln != "":
+                lean_out[cur].append(ln)
+        for t, allp, combos in plan:
+            got = lean_out.get(t.lean_name, [])
+            if len(got) != len(combos):
+                res["ok"] = False
+                res["errors"].append({"function": "text." + t.lean_name, "error": f"{len(got)} Lean results for {len(combos)} inputs"})
+                continue
+            bad = 0
+            pnames = [n for n, _ in t.lean_params()]
+            for c_in, l_res in zip(combos, got):
+                vals = [TEXTS[p_[0]] if ty == "Text" else p_ for (n, ty), p_ in zip(allp, c_in)]
+                obj = None
+                try:
+                    if t.mstate:
+                        seed = vals[0]
+                        obj = getattr(mod, t.d["selftest_state"]["py_class"]).make(seed[0], seed[1])
+                        args = [v if isinstance(v, str) else v[0] for v in vals[1:]]
+                        if t.mstate.get("py_param"):
+                            r = getattr(mod, t.function)(**{t.mstate["py_param"]: obj}, **dict(zip(pnames, args)))
+                        else:
+                            r = getattr(obj, t.function) if t.kind == "property" else getattr(obj, t.function)(**dict(zip(pnames, args)))
+                    else:
+                        args = [v if isinstance(v, str) else v[0] for v in vals]
+                        r = getattr(mod, t.function)(**dict(zip(pnames, args)))
+                    p_res = pshow(r)
+                    if t.mstate and t.mstate.get("mode", "rw") == "rw":
+                        p_res += " | " + obj.show()
+                except Exception as e:  # noqa: BLE001
+                    p_res = "!" + ("other" if isinstance(e, AssertionError) else EXC.get(type(e).__name__, "other:" + type(e).__name__))
+                res["evaluations"] += 1
+                if l_res == "!dom":
+                    res["text_outside_domain"] = res.get("text_outside_domain", 0) + 1
+                    continue
+                if p_res != l_res:
+                    bad += 1
+                    if len(res["disagreements"]) < 40:
+                        res["disagreements"].append({"function": "text." + t.lean_name, "input": [list(p_) for p_ in c_in], "python": p_res, "lean": l_res})
+            res["per_function"]["text." + t.lean_name] = {"inputs": len(combos), "disagree": bad}
+            res["functions"] += 1
+            if bad:
+                res["ok"] = False
+        want = str([cp for cp in range(0x110000) if chr(cp).isdigit()])
+        got = (lean_out.get("isdigit") or ["?"])[0]
+        res["evaluations"] += 0x110000
+        if want != got:
+            res["ok"] = False
+            res["disagreements"].append({"function": "text.isdigit-table", "input": None, "python": want[:200], "lean": got[:200]})
     finally:
         shutil.rmtree(tmp, ignore_errors=True)
 
